@@ -112,6 +112,10 @@ def gen_item_C09(rng, idx, tier):
     if idx in (2, 3):
         # thousands of structures
         return {'mode': 'deep', 'size': 0, 'big': 70 if tier == 'quick' else 140, 'fmt': ['hdf5', 'fits'][idx - 2], 'seed': rng.randrange(10 ** 6)}
+    if idx in (4, 5):
+        # fault path: on a tree deeper than the recursion limit the user first reads the root's Newick string (which ends
+        # in RecursionError) and then saves
+        return {'mode': 'deep', 'size': 1300 if tier == 'quick' else 2600, 'fmt': ['hdf5', 'fits'][idx - 4], 'touch': True}
     r = idx % 5
     if r == 3:
         n = rng.randint(1, 9 if tier == 'quick' else 14)
@@ -171,6 +175,13 @@ def eval_C09(item):
         depth = max(s.level for s in d)
         res['tags'].append('depth>=%d' % (depth // 500 * 500))
         res['tags'].append('structures>=%d' % (len(d) // 1000 * 1000))
+        if item.get('touch'):
+            for s_ in list(d.trunk) + [x_ for x_ in d if x_.level == depth // 2][:1]:
+                try:
+                    s_.newick
+                    res['tags'].append('touch:ok')
+                except RecursionError:
+                    res['tags'].append('touch:RecursionError')
         path = tmpfile('.' + item['fmt'])
         try:
             with warnings.catch_warnings():
@@ -400,6 +411,8 @@ def gen_item_C18(rng, idx, tier):
     ops = []
     r = rng.random()
     if r < 0.3:
+        if rng.random() < 0.5:
+            ops.append(('plotter',))          # the tree was already plotted before it was pruned
         ops.append(ph.gen_prune_op(rng, case, allow_crits=False))
     elif r < 0.45:
         ops.append(('reload', rng.choice(['hdf5', 'fits'])))
